@@ -509,10 +509,15 @@ func (r *vX01Run) prefer(least, pref string) {
 	m.stats.Unlock()
 }
 
-func (r *vX01Run) heartbeat(s *Server, m string, e uint64) error {
+func (r *vX01Run) heartbeat(s *Server, m string, e uint64) (err error) {
 	ctx, cancel := context.WithTimeout(context.Background(), vX01Deadline)
 	defer cancel()
-	_, err := s.api.FetchConsumerGroupAssignments(ctx, &client.FetchConsumerGroupAssignmentsRequest{
+	defer func() {
+		if p := recover(); p != nil {
+			err = fmt.Errorf("panic:%v", p)
+		}
+	}()
+	_, err = s.api.FetchConsumerGroupAssignments(ctx, &client.FetchConsumerGroupAssignmentsRequest{
 		GroupId: r.gid, ConsumerId: m, Epoch: e})
 	return err
 }
@@ -568,9 +573,9 @@ func (r *vX01Run) keepalive(hb map[string]string) *vX01Keep {
 									r.doubt = true
 								}
 								lastOK = start
-							} else if cls := vX01ErrClass(err); cls == "notmember" || cls == "nogroup" {
-								return // expired: TLC judges the recorded state
 							}
+							// a refusal (expired member, server away for a moment) is not the
+							// driver's business: the member just keeps trying
 						}
 					case "stale":
 						if s := r.c.srv(coord); s != nil {
@@ -767,6 +772,9 @@ func (r *vX01Run) step(step map[string]interface{}) (ev vX01Event) {
 			if err := r.c.a.leadershipAcquired(raft); err != nil {
 				obs.Err = "other:" + err.Error()
 			}
+			// the controller subscribed to the propagation subject again: make sure the
+			// NATS server knows before another server forwards a request
+			r.c.a.nc.Flush()
 		case "Restart":
 			long = true
 			args["s"] = "b"
@@ -774,8 +782,23 @@ func (r *vX01Run) step(step map[string]interface{}) (ev vX01Event) {
 			for _, m := range vX01Members {
 				hb[m] = "good"
 			}
+			fired := make(chan struct{})
+			tw := time.Now()
+			canary := time.AfterFunc(vX01T, func() { close(fired) })
+			defer canary.Stop()
 			k := r.keepalive(hb) // the members go on fetching while the server is away
 			err := r.c.restartB()
+			if err == nil {
+				// the step takes longer than the timeout in any case (the window of
+				// coordinator reports at the controller expires)
+				select {
+				case <-fired:
+				case <-time.After(vX01Deadline):
+				}
+				if d := time.Until(tw.Add(vX01T * 3 / 2)); d > 0 {
+					time.Sleep(d)
+				}
+			}
 			k.end()
 			if err != nil {
 				panic(err)
